@@ -59,6 +59,7 @@ class Scheduler:
         self.errors = {}
         self.switch_log = []
         self.tool = None
+        self.first_seen = {}     # (file, function, line) -> global step of its first execution
 
     # -- monitoring ------------------------------------------------------------------------------
     def _install(self):
@@ -89,6 +90,9 @@ class Scheduler:
             return
         with self.cv:
             self.steps += 1
+            loc = (code.co_filename, code.co_name, line)
+            if loc not in self.first_seen:
+                self.first_seen[loc] = self.steps
             tgt = self.switches.get(self.steps)
             if tgt is not None:
                 nxt = self._pick(tgt, exclude=me)
